@@ -156,6 +156,13 @@ func runC23(c *Ctx) {
 	ticketCut := ch.Pick(7, "ticket-cut")
 	resume := fault == "none" && ch.Bool(35, "quic-resume")
 	cancelAt := ch.Range(0, 400, "cancel-step")
+	// (the context is cancelled by a second task at a drawn scheduler step - with few scheduler steps
+	// in a world that is mostly "as soon as the pump idles" - or by the pump itself before a drawn
+	// iteration, i.e. between two calls into the connection)
+	cancelIter := -1
+	if ch.Bool(60, "cancel-in-pump") {
+		cancelIter = ch.Range(0, 14, "cancel-iter")
+	}
 	quicSpecWithPSK = resume
 	closeAt := ch.Range(0, 30, "close-iter")
 	pumpMode := ch.Pick(3, "pump-mode")
@@ -167,7 +174,10 @@ func runC23(c *Ctx) {
 	ctxKind := ch.Pick(3, "ctx-kind")
 	forceHRR := ch.Bool(30, "hrr") && strings.Contains(desc, "CurveP384") && !strings.Contains(desc, "groups=[CurveP384")
 	serverTP := []byte("server-transport-params-" + fmt.Sprint(ch.Pick(1000, "stp")))
-	w := c.NewWorld(simrt.Config{LockYield: ch.Bool(50, "lockyield"), UnlockYield: ch.Bool(25, "unlockyield"), PreemptPct: 10 + 20*ch.Pick(3, "preempt")})
+	// (no scheduling points at lock operations here: the QUIC API has a single caller by contract, and
+	// the library's own handshake goroutine shares the caller's task identity - lock-level yields of
+	// the two would be ordered by real time)
+	w := c.NewWorld(simrt.Config{PreemptPct: 10 + 20*ch.Pick(3, "preempt")})
 	ResetStamp()
 	c.R.Class = fmt.Sprintf("%s peer=%s fault=%s chunk=%d hrr=%v pump=%d ctx=%d resume=%v", desc, peerName(peer), fault, chunk, forceHRR, pumpMode, ctxKind, resume)
 
@@ -408,6 +418,11 @@ func runC23(c *Ctx) {
 		}
 		idle := 0
 		for iter := 0; iter < 800 && hdErr == nil; iter++ {
+			if fault == "cancel" && iter == cancelIter {
+				cancel()
+				c.Fault("cancel", 1)
+				simrt.Yield() // the handshake goroutine reacts in its own time: let it finish before the next call
+			}
 			if fault == "wrong-level-data" && iter == wrongLevelAt {
 				// CRYPTO data at a level the handshake is not reading at (a peer can send that at any
 				// moment): the call must return - with an error, and every later call too
@@ -476,7 +491,7 @@ func runC23(c *Ctx) {
 		closeReturned = true
 		srv.Close()
 	})
-	if fault == "cancel" {
+	if fault == "cancel" && cancelIter < 0 {
 		w.Go("canceller", func() {
 			simrt.WaitSteps(cancelAt)
 			cancel()
